@@ -74,6 +74,8 @@ pub enum Signal {
     Noise,
     /// all zeros
     Zero,
+    /// the Noise sequence of channel `ch + offset` (single-channel twins)
+    NoiseCh(usize),
 }
 
 pub fn splitmix(mut x: u64) -> u64 {
@@ -93,6 +95,7 @@ impl Signal {
                 (h >> 44) as f64 / 524288.0 - 1.0
             }
             Signal::Zero => 0.0,
+            Signal::NoiseCh(off) => Signal::Noise.at(ch + off, n),
         }
     }
 }
